@@ -11,6 +11,7 @@ import (
 // canonical, defaults, normalize, path resolution) on pre-parsed documents.
 func tcLoad(env types.Mapping, opts func(*Options), docs ...map[string]any) (map[string]any, error) {
 	tcPrelude(docs)
+	docs = tcRoute(docs)
 	var files []types.ConfigFile
 	names := []string{vrtRoot() + "/w/compose.yaml", vrtRoot() + "/w/override.yaml", vrtRoot() + "/w/third.yaml"}
 	for i, d := range docs {
@@ -73,3 +74,25 @@ func tcPrelude(docs []map[string]any) {
 		})
 	}
 }
+
+// tcRoute (harness parameter ROUTE=1): a single document reaches the loader through an `include` of a file of the
+// project directory instead of being the main file. Including equals pasting (C06), so every oracle of the harness
+// applies unchanged. Documents that carry a project `name` or include something themselves are left alone.
+func tcRoute(docs []map[string]any) []map[string]any {
+	if vrtParam("ROUTE", 0) != 1 || len(docs) != 1 {
+		return docs
+	}
+	d := docs[0]
+	if _, has := d["name"]; has {
+		return docs
+	}
+	if _, has := d["include"]; has {
+		return docs
+	}
+	tcRouteN++
+	name := "zz-routed-" + string(rune('a'+tcRouteN%26)) + ".yaml"
+	vrtYamlFile(vrtRoot()+"/w/"+name, genCopy(d).(map[string]any))
+	return []map[string]any{{"include": []any{name}}}
+}
+
+var tcRouteN int
